@@ -259,8 +259,20 @@ impl Comp {
 	}
 }
 
+/// cheap content hash that selects encoder parameters: the harness's compressed fixtures are
+/// "files as other tools write them" — all gzip levels (0 = stored blocks) and all standard
+/// brotli window sizes (2^10..2^24) and several qualities occur, deterministically per content
+fn param_hash(data: &[u8]) -> u64 {
+	let mut h = 0xcbf29ce484222325u64 ^ data.len() as u64;
+	for b in data.iter().take(64) {
+		h = (h ^ *b as u64).wrapping_mul(0x100000001b3);
+	}
+	h ^ (h >> 29)
+}
+
 pub fn gzip(data: &[u8]) -> Vec<u8> {
-	let mut e = flate2::write::GzEncoder::new(Vec::new(), flate2::Compression::new(6));
+	let level = [6u32, 6, 9, 1, 0, 6, 3, 9][(param_hash(data) % 8) as usize];
+	let mut e = flate2::write::GzEncoder::new(Vec::new(), flate2::Compression::new(level));
 	e.write_all(data).unwrap();
 	e.finish().unwrap()
 }
@@ -275,7 +287,10 @@ pub fn gunzip(data: &[u8]) -> Result<Vec<u8>, String> {
 pub fn brotli_c(data: &[u8]) -> Vec<u8> {
 	let mut out = Vec::new();
 	{
-		let mut w = brotli::CompressorWriter::new(&mut out, 4096, 5, 22);
+		let h = param_hash(data);
+		let lgwin = 10 + (h % 15) as u32;
+		let quality = [5u32, 1, 9, 11, 5, 3][((h >> 8) % 6) as usize];
+		let mut w = brotli::CompressorWriter::new(&mut out, 4096, quality, lgwin);
 		w.write_all(data).unwrap();
 	}
 	out
